@@ -28,13 +28,21 @@ func init() {
 				"R7: no handler of the pipeline modifies the EDNS data (OPT record, Extra section) of the request message it received (directly or through a callee): the writers read the client's EDNS size, DO bit and options from that very object.",
 			NotCovered: "that dns.Msg.Truncate really fits the size and the encoded sizes themselves; the up-to-36-byte padding " +
 				"overshoot on DoH acknowledged in a code comment (numeric, out of static reach).",
-			Rules: map[string]string{"C08-R19": "ecscache writeUpstreamResponse removes hop-to-hop options before the clone goes to the cache (store order; shared with C04-R5)", "C08-R18": "reservedLen: normalize truncates DNSCrypt responses to the limit less the bytes the dnscrypt module reserves for its header (the constant is read from the module's own normalize), so the module, which keeps the answers that still fit when it truncates on TCP, never has to drop a record; nothing is reserved for the other protocols", "C08-R17": "a pooled receive buffer is returned only after the request decoded from it has been served (buffer-lifetime rules shared with C06-R2)", "C08-R15": "the simple cache leaves the cached OPT record out of a hit (hop-by-hop options of the first requester do not reach later clients)", "C08-R16": "genErrorResponse builds the server's own error answers by SetRcode alone, so normalize gives them a fresh OPT record", "C08-R14": "optCloner.clone resets every field of the pooled OPT record, so padding and keep-alive options of an earlier response do not reach another client (shared with C07-R1)", "C08-RC": "class rules (error chains, shadowed results, character classes, crossed arguments, pool constructors, array pools, loop completeness, loop-carried buffers, replacing setters, complete clones, Grow arithmetic, pooled-buffer escape, sorted searches, fresh decode targets, per-iteration objects, whole-message copies, codec guards) over the packages this property rests on", "C08-R13": "addEDE builds a fresh response OPT from the request's UDP size and DO bit only", "C08-R12": "the filtered response is written once and for the original request (pipeline table shared with C01-R10)", "C08-R1": "normalise-before-serialise in every wire writer", "C08-R2": "maxDNSSize over all orderings",
+			Rules: map[string]string{"C08-R22": "the TCP writer adds nothing to a response after its last truncation: when the edns-tcp-keepalive option was added after normalisation, the response is truncated again before it is packed (within six bytes of the limit it would not pack, and the client would get SERVFAIL for an answer that only had to be truncated)", "C08-R21": "ecscache.setECS puts the ECS option into the OPT record the message already has, for responses too (table shared with C05-R4): a response is never given a second OPT record", "C08-R20": "the cloner re-initialises the additional section of the pooled message on every path (shared with C07-R1): a response built from a clone carries no OPT options (padding, keep-alive) of an earlier client; R21: setECS reuses the OPT record a response already has (table shared with C05-R4), so no response leaves with two OPT records", "C08-R19": "ecscache writeUpstreamResponse removes hop-to-hop options before the clone goes to the cache (store order; shared with C04-R5)", "C08-R18": "reservedLen: normalize truncates DNSCrypt responses to the limit less the bytes the dnscrypt module reserves for its header (the constant is read from the module's own normalize), so the module, which keeps the answers that still fit when it truncates on TCP, never has to drop a record; nothing is reserved for the other protocols", "C08-R17": "a pooled receive buffer is returned only after the request decoded from it has been served (buffer-lifetime rules shared with C06-R2)", "C08-R15": "the simple cache leaves the cached OPT record out of a hit (hop-by-hop options of the first requester do not reach later clients)", "C08-R16": "genErrorResponse builds the server's own error answers by SetRcode alone, so normalize gives them a fresh OPT record", "C08-R14": "optCloner.clone resets every field of the pooled OPT record, so padding and keep-alive options of an earlier response do not reach another client (shared with C07-R1)", "C08-RC": "class rules (error chains, shadowed results, character classes, crossed arguments, pool constructors, array pools, loop completeness, loop-carried buffers, replacing setters, complete clones, Grow arithmetic, pooled-buffer escape, sorted searches, fresh decode targets, per-iteration objects, whole-message copies, codec guards) over the packages this property rests on", "C08-R13": "addEDE builds a fresh response OPT from the request's UDP size and DO bit only", "C08-R12": "the filtered response is written once and for the original request (pipeline table shared with C01-R10)", "C08-R1": "normalise-before-serialise in every wire writer", "C08-R2": "maxDNSSize over all orderings",
 				"C08-R3": "truncate / packWithPrefix gates", "C08-R4": "normalize decision tree and OPT fields",
 				"C08-R5": "padding / keep-alive / option filter gates", "C08-R6": "pooled OPT records are reset before reuse", "C08-R7": "no handler modifies the EDNS data of the request message"},
 		}})
 }
 
 func runC08(c *an.Ctx) {
+	// ---- R22: nothing grows a TCP response after its last truncation
+	c.Floor("C08-R22", 1)
+	c08KeepAliveThenTruncate(c, "C08-R22")
+	// ---- R20: pooled clones start with an empty additional section (shared with C07-R1); R21: one OPT record (shared with C05-R4)
+	c.Floor("C08-R20", 1)
+	c.Borrow("C08-R20", runC07, func(o an.Obligation) bool { return o.Rule == "C07-R1" && strings.Contains(o.Key, "Cloner).Clone") })
+	c.Floor("C08-R21", 1)
+	c.Borrow("C08-R21", runC05, func(o an.Obligation) bool { return o.Rule == "C05-R4" && strings.Contains(o.Key, "setECS") })
 	// ---- R19: hop-to-hop options are removed before the response is cached (shared with C04-R5)
 	c.Floor("C08-R19", 1)
 	ecsStoreOrder(c, "C08-R19")
@@ -797,4 +805,76 @@ func c08CacheHitNoOPT(c *an.Ctx, rule string) {
 	})
 	c.Check(n > 0 && bad == "", rule, key, fn.Pos(), fmt.Sprintf("%d appends build the additional section, each behind a test of the record type against OPT", n),
 		bad+": a cache hit replays the OPT record of the first requester's answer (keep-alive, padding) to every later client")
+}
+
+// c08KeepAliveThenTruncate: tcpResponseWriter.WriteMsg normalises (truncates) the
+// response and then adds the edns-tcp-keepalive option.  Every path from the
+// call that adds the option to packWithPrefix passes a truncation (truncate,
+// normalize, normalizeTCP) or the edge on which the call reported that it
+// added nothing.
+func c08KeepAliveThenTruncate(c *an.Ctx, rule string) {
+	k := "dnsserver.(*tcpResponseWriter).WriteMsg"
+	fn := c.Prog.Fn(k)
+	key := k + " truncates again after adding the keep-alive option"
+	if fn == nil {
+		c.Und(rule, key, token.NoPos, "anchor not found")
+		return
+	}
+	c.Analysed(k)
+	var add, pack ssa.CallInstruction
+	for _, call := range an.Calls(fn) {
+		switch n := an.CalleeName(call); {
+		case strings.HasSuffix(n, "tcpResponseWriter).addTCPKeepAlive"):
+			add = call
+		case strings.HasSuffix(n, "dnsserver.packWithPrefix"):
+			pack = call
+		}
+	}
+	if add == nil || pack == nil {
+		c.Und(rule, key, fn.Pos(), "addTCPKeepAlive or packWithPrefix not found in WriteMsg")
+		return
+	}
+	// the edge on which the call reported "nothing added"
+	var notAdded []an.CondEdge
+	if v := add.Value(); v != nil {
+		for _, r := range *v.Referrers() {
+			if ifi, ok := r.(*ssa.If); ok {
+				notAdded = append(notAdded, an.CondEdge{If: ifi, Branch: false})
+			}
+		}
+	}
+	// is the pack step reachable from the add step without a truncation in between?
+	reach := false
+	seen := map[*ssa.BasicBlock]bool{}
+	var walk func(b *ssa.BasicBlock, from int)
+	walk = func(b *ssa.BasicBlock, from int) {
+		for _, in := range b.Instrs[from:] {
+			if call, ok := in.(ssa.CallInstruction); ok {
+				n := an.CalleeName(call)
+				if strings.HasSuffix(n, "dnsserver.truncate") || strings.HasSuffix(n, "dnsserver.normalize") || strings.HasSuffix(n, "dnsserver.normalizeTCP") {
+					return
+				}
+				if call == pack {
+					reach = true
+					return
+				}
+			}
+		}
+		for _, succ := range b.Succs {
+			blocked := false
+			for _, e := range notAdded {
+				if e.If.Block() == b && e.To() == succ && b.Succs[0] != b.Succs[1] {
+					blocked = true
+				}
+			}
+			if !blocked && !seen[succ] {
+				seen[succ] = true
+				walk(succ, 0)
+			}
+		}
+	}
+	blk, idx := an.After(add)
+	walk(blk, idx)
+	c.Check(!reach, rule, key, add.Pos(), "a truncation lies between the added option and the packing step",
+		"the keep-alive option is added at "+c.Pos(add.Pos())+" and the response is packed at "+c.Pos(pack.Pos())+" with no truncation in between: a response that normalisation left within six bytes of 65535 no longer packs, and the client gets SERVFAIL instead of a truncated answer")
 }
